@@ -18,11 +18,20 @@ MinPilotHigh == [x \in StationsTwo |-> IF x = "ST-1" THEN 800 ELSE 600]         
 
 \* generation lattices (multiples of 25)
 DropsGen == {0, 75, 100, 125, 50, 400}
+DropsTiny == {0, 100, 125, 400}
+DropsTwo == {0, 125}
 GLatGen == {800, 1400}
 PLatGen == {600, 1600, 2400}
 \* model checking: offsets of one unit around the thresholds 100 / 50 / 150
 DropsMC == {0, 49, 50, 51, 99, 100, 101, 149, 150, 151, 700}
 DropsQ == {0, 99, 100, 101, 700}
+DropsFrac == {0, 49, 50, 51, 149, 150, 151, 700}
+PLatTwo == {600, 1600}
+DropsPair == {0, 101, 700}
+DropsPairFrac == {0, 151, 700}
+NoLat == {}
+SessOne == {"ses-a"}
+SessOnST1 == {"ses-a", "ses-c"}                          \* one station used twice
 
 View == <<t, stage, ph, old, lastP, lastR, ub, passed, grant>>
 =============================================================================
